@@ -54,11 +54,11 @@ def register(S):
                })
     IO = ["self._send_queue", "self._sendlock.held", SOCK, SOCK + ".outbuf", SOCK + ".inbuf", SOCK + ".shut_attempted",
           SOCK + ".closed", SOCK + ".failed", "self._seqcounter.nxt", "self._local_objects._dict",
-          "self._request_callbacks", "self._closed", "self._last_traceback"]
+          "self._request_callbacks", "self._closed", "self._last_traceback", "$refcounts"]
     ALLMODS = sorted(set(IO + TEARDOWN_MODS))
     NOSOCK = [m for m in ALLMODS if not m.startswith(SOCK)]
     QUIET = {"self._sendlock.held": "False", "self._send_queue.items": "nil()"}
-    CFG = ["all_slots_ok(self._local_objects._dict)", "haskey(self._config, 'close_catchall')", "haskey(self._config, 'logger')",
+    CFG = ["all_slots_ok(self._local_objects._dict) and cache_ok(self._proxy_cache._dict, self)", "haskey(self._config, 'close_catchall')", "haskey(self._config, 'logger')",
            # scope: no before_closed hook configured (it fetches the remote root, i.e. serves traffic re-entrantly)
            "not haskey(self._config, 'before_closed') or not truthy(self._config['before_closed'])"]
     S.contract(F + "root", params={"self": "obj:Connection"}, result="val", trusted=True,
@@ -158,7 +158,7 @@ def register(S):
                         "internal_waiters_woken": ("implies(n_ev('LockTaken') >= 1, n_ev('Notify') >= 1)", ["C11"]),
                         "quiescent_after": ("isnil(self._send_queue.items) and not self._sendlock.held and "
                                             "implies(not self._closed, not isnone(self._local_root)) and "
-                                            "all_slots_ok(self._local_objects._dict)", P11)},
+                                            "all_slots_ok(self._local_objects._dict) and cache_ok(self._proxy_cache._dict, self)", P11)},
                raises={
                    # end-of-stream or an I/O failure met while receiving: this side becomes closed (hook run, tables
                    # released) BEFORE the error is re-raised
@@ -171,15 +171,15 @@ def register(S):
                                     {"label": "from the dispatched message, connection down",
                                      "sets": {"self._channel.stream.sock": "ClosedFile"},
                                      "state": ["not self._recvlock.held", "n_callees('_dispatch') == 1", "not self._sendlock.held",
-                                               "implies(not self._closed, not isnone(self._local_root))", "all_slots_ok(self._local_objects._dict)"]},
+                                               "implies(not self._closed, not isnone(self._local_root))", "all_slots_ok(self._local_objects._dict) and cache_ok(self._proxy_cache._dict, self)"]},
                                     {"label": "from the dispatched message", "sets": {"self._channel.stream.sock": "old(self._channel.stream.sock)"},
                                      "modifies": [m for m in ALLMODS if not m.startswith(SOCK)] + [SOCK + ".outbuf", SOCK + ".inbuf", "self._recvlock.held"],
                                      "state": ["not self._recvlock.held", "n_callees('_dispatch') == 1", "not self._sendlock.held",
                                                "implies(not self._closed, not isnone(self._local_root))",
-                                               "all_slots_ok(self._local_objects._dict)"]}]},
+                                               "all_slots_ok(self._local_objects._dict) and cache_ok(self._proxy_cache._dict, self)"]}]},
                    "BaseException": {"props": P11, "variants": MAYBE_DEAD, "state": [
                        "not self._recvlock.held", "not self._sendlock.held", "implies(n_ev('LockTaken') >= 1, n_ev('Notify') >= 1)",
-                       "implies(not self._closed, not isnone(self._local_root))", "all_slots_ok(self._local_objects._dict)"]}},
+                       "implies(not self._closed, not isnone(self._local_root))", "all_slots_ok(self._local_objects._dict) and cache_ok(self._proxy_cache._dict, self)"]}},
                modifies=[m for m in ALLMODS if m not in (SOCK, SOCK + ".shut_attempted", SOCK + ".closed", SOCK + ".failed")] + ["self._recvlock.held"])
 
     # serve_all: closed on EVERY exit path
@@ -196,5 +196,5 @@ def register(S):
                           "local_trace": True,
                           "invariant": ["not self._recvlock.held", "isnil(self._send_queue.items)", "not self._sendlock.held",
                                         "%s is old(%s)" % (SOCK, SOCK), "not %s.failed" % SOCK,
-                                        "all_slots_ok(self._local_objects._dict)",
+                                        "all_slots_ok(self._local_objects._dict) and cache_ok(self._proxy_cache._dict, self)",
                                         "implies(not self._closed, not isnone(self._local_root))"]}})
